@@ -171,9 +171,11 @@ func (x *c04Exec) step(ev string, check bool) bool {
 		panic("event " + ev)
 	}
 	if check {
-		return x.reconcile(ev, parts[0] == "put") && x.checkLive(ev)
+		// opening a store whose usage figure exceeds the capacity prunes it (C17), so a
+		// reopen may remove items just like a put
+		return x.reconcile(ev, parts[0] == "put" || parts[0] == "reopen") && x.checkLive(ev)
 	}
-	return x.quietReconcile(parts[0] == "put" || parts[0] == "churn")
+	return x.quietReconcile(parts[0] == "put" || parts[0] == "churn" || parts[0] == "reopen")
 }
 
 func (x *c04Exec) put(id, val []byte, check bool, ev string) bool {
